@@ -67,7 +67,8 @@ def _job(args):
                 'paths': rep.paths, 'cases': rep.cases, 'unsupported': rep.unsupported, 'errors': rep.errors,
                 'covers': rep.covers, 'axioms': sorted(rep.axioms_used), 'branch_queries': rep.branch_queries,
                 'solver_s': round(rep.solver_s, 3), 'wall_s': round(time.time() - t0, 3),
-                'assumptions': list(getattr(c, 'assumptions', ()))}
+                'assumptions': list(getattr(c, 'assumptions', ())), 'cross': getattr(rep, 'cross', []),
+                'cross_tried': getattr(rep, 'cross_tried', 0), 'infeasible_paths': getattr(rep, 'infeasible_paths', 0)}
     except Unsupported as e:
         try:
             signal.alarm(0)
@@ -111,6 +112,48 @@ def run_replay(replay_path):
         return json.loads(line[-1])
     except Exception as e:   # noqa
         return {'violates': None, 'detail': 'replay failed to run: %s' % e}
+
+
+def crosscheck(pid, reports):
+    out = {'sampled_paths': 0, 'models_found': 0, 'replayed': 0, 'agree': 0, 'no_outcome': 0, 'disagreements': []}
+    items = []
+    for rep in reports:
+        out['sampled_paths'] += rep.get('cross_tried', 0)
+        for x in rep.get('cross', []):
+            items.append((rep, x))
+    out['models_found'] = len(items)
+    if not items:
+        return out
+    os.makedirs(os.path.join(VERIF, 'replays', pid), exist_ok=True)
+    paths = []
+    for n, (rep, x) in enumerate(items):
+        rp_path = os.path.join(VERIF, 'replays', pid, 'cross_%03d.json' % n)
+        with open(rp_path, 'w') as f:
+            json.dump({'property': pid, 'target': rep['target'], 'inputs': x['witness'], 'case': x['case'], 'path': x['path'],
+                       'engine_outcome': x['outcome'], 'purpose': 'engine-vs-CPython cross-check'}, f, indent=1, default=str)
+        paths.append(rp_path)
+    from concurrent.futures import ThreadPoolExecutor
+    with ThreadPoolExecutor(max_workers=12) as ex:
+        verdicts = list(ex.map(run_replay, paths))
+    for (rep, x), v, rp_path in zip(items, verdicts, paths):
+        out['replayed'] += 1
+        fname = rep['target'].split('.')[-1]
+        real = None
+        for nm, kind in (v.get('calls') or []):
+            if nm.split('.')[-1] == fname or nm.endswith('.' + fname):
+                real = kind
+                break
+        if real is None:
+            out['no_outcome'] += 1
+            os.unlink(rp_path)
+            continue
+        if real == x['outcome']:
+            out['agree'] += 1
+            os.unlink(rp_path)
+        else:
+            out['disagreements'].append({'target': rep['target'], 'case': x['case'], 'path': x['path'], 'engine': x['outcome'], 'real': real,
+                                         'lib': x.get('lib', []), 'replay': os.path.relpath(rp_path, VERIF)})
+    return out
 
 
 def run_bounded(pid, tier, seed, timeout=3000):
@@ -164,6 +207,8 @@ def check_property(pid, spec, tier='quick', seed=0, procs=None, write_baseline=F
     facts = envfacts()
     timeout_ms = spec.get('timeout_ms', 20000) * (3 if tier == 'thorough' else 1)
     bounded_res = None
+    if tier == 'thorough':
+        os.environ['PYVC_CROSSCHECK'] = os.environ.get('PYVC_CROSSCHECK', '2')      # sampled paths per outcome and case
     reports = run_proof_jobs(spec.get('contracts', []), facts, timeout_ms, procs)
     known = load_known()
     baseline = load_baseline(pid)
@@ -181,6 +226,7 @@ def check_property(pid, spec, tier='quick', seed=0, procs=None, write_baseline=F
     covers_reached = []
     solver_s = 0.0
     os.makedirs(os.path.join(VERIF, 'replays', pid), exist_ok=True)
+    pending = []
     for rep in reports:
         if rep['errors']:
             broken.append('%s[%s]: %s' % (rep['target'], rep['label'], rep['errors'][0][:600]))
@@ -226,36 +272,49 @@ def check_property(pid, spec, tier='quick', seed=0, procs=None, write_baseline=F
             if r['status'] == 'unknown':
                 undecided.append({'key': key, 'why': 'solver unknown: %s' % r['reason']})
                 continue
-            verdict = {'violates': None, 'detail': 'no concrete inputs could be built from the counter-model'}
             with open(os.path.join(VERIF, rp_path), 'w') as f:
                 json.dump(rp, f, indent=1, default=str)
-            if r['witness'] and not (isinstance(r['witness'], dict) and r['witness'].get('error')) and \
-                    not (isinstance(r['witness'], dict) and r['witness'].get('data', 1) is None):
-                verdict = run_replay(os.path.join(VERIF, rp_path))
-            rp['replay_verdict'] = verdict
-            with open(os.path.join(VERIF, rp_path), 'w') as f:
-                json.dump(rp, f, indent=1, default=str)
-            item = {'key': key, 'replay': rp_path, 'verdict': verdict, 'obligation': r['name'], 'target': rep['target']}
-            kf = match_known(pid, key, known)
-            if verdict.get('violates') is True:
-                if kf:
-                    known_hits.append((kf, item))
-                else:
-                    violations.append((item, ''))
-            elif 'candidate only' in (r.get('backend') or ''):
-                # no solver produced a model of the full VC (only of its ground-instantiated weakening) and the
-                # candidate input does not fail on the real code: validity of the VC is unknown
-                undecided.append({'key': key, 'why': 'solver unknown; candidate input from ground instances does not fail on the real code: %s'
-                                  % str(verdict.get('detail', ''))[:200]})
+            runnable = bool(r['witness'] and not (isinstance(r['witness'], dict) and r['witness'].get('error')) and
+                            not (isinstance(r['witness'], dict) and r['witness'].get('data', 1) is None))
+            pending.append((key, rp_path, rp, r, rep, runnable))
+    # replay the counterexamples on the real code (in parallel)
+    from concurrent.futures import ThreadPoolExecutor
+    todo = [x for x in pending if x[5]]
+    with ThreadPoolExecutor(max_workers=12) as ex:
+        verdicts = dict(zip([x[0] + x[1] for x in todo], ex.map(lambda x: run_replay(os.path.join(VERIF, x[1])), todo)))
+    for (key, rp_path, rp, r, rep, runnable) in pending:
+        verdict = verdicts.get(key + rp_path, {'violates': None, 'detail': 'no concrete inputs could be built from the counter-model'})
+        rp['replay_verdict'] = verdict
+        with open(os.path.join(VERIF, rp_path), 'w') as f:
+            json.dump(rp, f, indent=1, default=str)
+        item = {'key': key, 'replay': rp_path, 'verdict': verdict, 'obligation': r['name'], 'target': rep['target']}
+        kf = match_known(pid, key, known)
+        if verdict.get('violates') is True:
+            if kf:
+                known_hits.append((kf, item))
             else:
-                # counter-model did not reproduce (or could not be concretised)
-                was_discharged = baseline is not None and key in baseline.get('discharged', [])
-                if kf:
-                    known_hits.append((kf, item))
-                elif was_discharged:
-                    violations.append((item, ' no-failing-input-found'))
-                else:
-                    undecided.append({'key': key, 'why': 'sat, not reproduced on the real code: %s' % verdict.get('detail', '')[:300]})
+                violations.append((item, ''))
+        elif 'candidate only' in (r.get('backend') or ''):
+            # no solver produced a model of the full VC (only of its ground-instantiated weakening) and the
+            # candidate input does not fail on the real code: validity of the VC is unknown
+            undecided.append({'key': key, 'why': 'solver unknown; candidate input from ground instances does not fail on the real code: %s'
+                              % str(verdict.get('detail', ''))[:200]})
+        else:
+            # counter-model did not reproduce (or could not be concretised)
+            was_discharged = baseline is not None and key in baseline.get('discharged', [])
+            if kf:
+                known_hits.append((kf, item))
+            elif was_discharged:
+                violations.append((item, ' no-failing-input-found'))
+            else:
+                undecided.append({'key': key, 'why': 'sat, not reproduced on the real code: %s' % verdict.get('detail', '')[:300]})
+    # engine-vs-CPython cross-check: concrete inputs satisfying sampled path conditions are run on the real code; the outcome
+    # (return / exception class of the first call of the function under contract) must be the outcome of the engine's path
+    cross = crosscheck(pid, reports)
+    for d in cross['disagreements']:
+        if not d['lib']:
+            broken.append('engine/CPython disagreement on %s[%s] path %d: engine %s, CPython %s (inputs in %s)' % (
+                d['target'], d['case'], d['path'], d['engine'], d['real'], d['replay']))
     # bounded stand-in / cross-check
     bounded_summary = None
     if spec.get('bounded'):
@@ -287,9 +346,13 @@ def check_property(pid, spec, tier='quick', seed=0, procs=None, write_baseline=F
             json.dump({'property': pid, 'discharged': sorted(set(discharged_keys)), 'covers': sorted(set(covers_reached))}, f, indent=0)
     # verdict
     seen_kf = set()
+    seen_what = set()
     for kf, item in known_hits:
         if kf['key'] not in seen_kf:
             seen_kf.add(kf['key'])
+            if kf['what'] in seen_what:
+                continue            # the same finding listed under several obligation / bounded keys: one line
+            seen_what.add(kf['what'])
             out_lines.append('KNOWN-FINDING: property=%s %s' % (pid, kf['what']))
     reported = set()
     for item, suffix in violations:
@@ -323,6 +386,7 @@ def check_property(pid, spec, tier='quick', seed=0, procs=None, write_baseline=F
             'undecided': undecided[:50],
             'known_findings_matched': sorted(seen_kf),
             'bounded': bounded_summary,
+            'engine_crosscheck': {k_: cross[k_] for k_ in ('sampled_paths', 'models_found', 'replayed', 'agree', 'no_outcome', 'disagreements')},
             'samples': samples or [{'note': 'no discharged ensures obligation to show'}],
             'envfacts': facts,
         },
